@@ -651,3 +651,24 @@ Lemma link_re_class_of_set e s :
   option_map convres (M_RE_class_of_set (S (length (CharPartition_list (RE_deriv_class e)))) e s)
   = pclass_of_set (rcls (conv_re e)) (conv s).
 Proof. rewrite re_fwd_class_of_set, link_class_of_set, rcls_conv. reflexivity. Qed.
+
+(* ---- HashConsed::make for RE: the term stored for a key carries the recomputed attributes ---- *)
+Lemma is_singleton_total k : exists b, M_BaseRegLan_is_singleton k = Some b.
+Proof.
+  unfold M_BaseRegLan_is_singleton, BaseRegLan_is_singleton.
+  destruct k; autounfold with rs2v; cbv [bind]; repeat gcase; eauto.
+Qed.
+Lemma is_simple_pattern_total k : exists b, M_BaseRegLan_is_simple_pattern k = Some b.
+Proof.
+  unfold M_BaseRegLan_is_simple_pattern. autounfold with rs2v. eauto.
+Qed.
+
+Lemma link_make fuel i k : node_ok fuel k ->
+  option_map conv_re (M_RE_make fuel i k) = Some (mk_node (N.of_nat i) (conv_base k)).
+Proof.
+  intros Hok. unfold M_RE_make, RE_make. rewrite link_is_nullable. cbn [bind].
+  destruct (is_singleton_total k) as [b1 ->]. destruct (is_simple_pattern_total k) as [b2 ->]. cbn [bind].
+  pose proof (link_deriv_class fuel k Hok) as H.
+  destruct (M_BaseRegLan_deriv_class fuel k) as [dc|]; [|discriminate H]. cbn [option_map] in H. injection H as H.
+  cbn [bind option_map conv_re]. unfold mk_node. rewrite H. reflexivity.
+Qed.
